@@ -196,3 +196,39 @@ OUTSIDE = ['faults during save_manifests (the statement covers the scan phase)',
            'DESIGN.md, not covered by the statement)']
 STUBS = ['gemato.verify.os/open/fcntl/hash_file -> one-file environment with fault plan',
          'ModelFS with a global call counter']
+
+
+def validate(seed, tier):
+    """real filesystem (works as root too): a self-referencing symlink gives ELOOP, an error
+    other than ENOENT, on open()/stat().  As a stray, as a listed file and as a directory
+    component it must make verify fail (never exit 0) and update fail without touching the
+    Manifest."""
+    import os
+    from vf.realcheck import RealTree, gemato
+    agree, details, errs = 0, [], []
+    for where, listed in (('loop', False), ('loop', True), ('sub/loop', False)):
+        for cmd in ('verify', 'verify-k', 'update'):
+            t = RealTree()
+            try:
+                t.write('a', b'aa')
+                t.write('sub/c', b'ccc')
+                t.write('Manifest', b'')
+                rc, out = gemato('update', '-H', 'MD5', t.root)
+                if listed:
+                    with open(os.path.join(t.root, 'Manifest'), 'a') as f:
+                        f.write(f'DATA {where} 1 MD5 00\n')
+                os.symlink(os.path.basename(where), os.path.join(t.root, where))
+                before = t.read('Manifest')
+                args = {'verify': ['verify'], 'verify-k': ['verify', '-k'],
+                        'update': ['update', '-H', 'MD5']}[cmd] + [t.root]
+                rc, out = gemato(*args)
+                if rc == 0:
+                    errs.append(f'{cmd} with unreadable {where} (listed={listed}) exited 0')
+                elif cmd == 'update' and t.read('Manifest') != before:
+                    errs.append(f'failing update rewrote the Manifest ({where})')
+                else:
+                    agree += 1
+            finally:
+                t.close()
+    details.append({'object': 'self-referencing symlink (ELOOP)', 'cases': 9})
+    return agree, details, errs
